@@ -1086,6 +1086,20 @@ example : (match sAddAll cfg0 {} [evB, evA, evCreate] with
 `applyFrom` updates `store.conflictedDocuments` inside the closure of the write transaction. A transaction that is rolled
 back after the closure ran leaves the shelves as they were, but not the map. -/
 
+/-- regenerated from writer.go / store.go: the map is written unconditionally in BOTH branches of applyFrom's
+    `if metadata.isConflicted()` (put in the conflicted branch, delete in the other — `add`'s `alPut` / `alDel`), between
+    the counter arithmetic and the shelf Put / Delete, i.e. inside the closure of the write transaction (what
+    `addRolledBack` models); keyed by `document.ID.String()`; `ConflictedCount` reads the statistics shelf, not the map -/
+theorem fact_cache_update_inside_write_closure : Facts.C10.cacheBranches =
+    ["then: if !conflicted { conflictedCount++ }", "then: tl.addCachedConflict(*document, *metadata)",
+     "then: err = conflictedWriter.Put(stoabs.BytesKey(document.ID.String()), []byte{0})",
+     "else: if conflicted { conflictedCount-- }", "else: tl.removeCachedConflict(*document)",
+     "else: err = conflictedWriter.Delete(stoabs.BytesKey(document.ID.String()))",
+     "addCachedConflict: { tl.conflictedDocuments[document.ID.String()] = conflictedDocument{ didDocument: document, metadata: metadata, } }",
+     "removeCachedConflict: { delete(tl.conflictedDocuments, document.ID.String()) }",
+     "Conflicted: { for _, conflicted := range tl.conflictedDocuments { if err := fn(conflicted.didDocument, conflicted.metadata.asVDRMetadata()); err != nil { return err } } return nil }",
+     "ConflictedCount: var count uint32 ; 3 statements ; last: return uint(count), err"] := by rfl
+
 /-- a rolled-back Add leaves every shelf and both statistics as they were -/
 theorem rolled_back_add_keeps_the_shelves (cfg : Cfg) (s t : Store) (e : Event) (h : addRolledBack cfg s e = .ok t) :
     t.dids = s.dids ∧ t.conflictedCount = s.conflictedCount ∧ t.documentCount = s.documentCount ∧
